@@ -141,3 +141,10 @@ void All() {
   UseResult<int>(1);
   UseResultVoid(); UseVariant(); UseVariant3(); UseHandles(); UseEntry();
 }
+
+// Every non-template member of the recursive union, whether or not Variant currently routes through it: coverage of
+// detail::Union must not depend on which helpers the public wrappers happen to call.
+template union nop::detail::Union<int>;
+template union nop::detail::Union<std::string>;
+template union nop::detail::Union<int, std::string>;
+template union nop::detail::Union<int, std::string, std::vector<int>>;
